@@ -861,7 +861,9 @@ func c07Drive(run *vfRun, w *vfWorld, p *vfProxy, cfg *c07Cfg, inst int, session
 			for style := range c07SpoofStyles {
 				// quick tier: "none" plus a rotating third of the styles per (instance, session, endpoint); every style
 				// meets every session class and endpoint across the instances. thorough: all.
-				if !run.Env.Thorough() && style != 0 && (style+inst+si+ei)%3 != 0 {
+				// (the auth-only endpoints, where the client's request headers play no role for the response, rotate in both tiers)
+				authEP := ep.Name == "auth-only" || ep.Name == "auth-only-denied"
+				if style != 0 && (!run.Env.Thorough() || authEP) && (style+inst+si+ei)%3 != 0 {
 					continue
 				}
 				caseNo++
